@@ -12,4 +12,7 @@ import Props.C07
 #print axioms C07.hold_armed_openconfirm
 #print axioms C07.hold_rearmed_established
 #print axioms C07.collision_rule
+#print axioms C07.session_open_validated
+#print axioms C07.collision_paths_agree
+#print axioms C07.transport_fault
 #print axioms C07.admin_state_reported
